@@ -19,44 +19,44 @@ import (
 func init() { cmds["proto"] = protoCmd }
 
 type pClient struct {
-	idx     int
-	name    string
-	ro      bool
-	cl      *fakes3.Client
-	db      *kv.DB
-	script  []string // "open", "write" (set a fresh key + commit)
-	pos     int
-	start   chan string
-	busy    int32 // 1 while an op is running
-	opErr   error
-	inOpen  bool
-	loaded  int
-	crashed bool
-	opening bool
-	commits int
-	listKeys map[string]bool // data keys stored when this open's LIST was served
+	idx        int
+	name       string
+	ro         bool
+	cl         *fakes3.Client
+	db         *kv.DB
+	script     []string // "open", "write" (set a fresh key + commit)
+	pos        int
+	start      chan string
+	busy       int32 // 1 while an op is running
+	opErr      error
+	inOpen     bool
+	loaded     int
+	crashed    bool
+	opening    bool
+	commits    int
+	listKeys   map[string]bool // data keys stored when this open's LIST was served
 	lastOpenOK bool
 }
 
 type protoCase struct {
-	e        *Emitter
-	st       *Stats
-	r        *gen.Rng
-	id       string
-	store    *fakes3.Store
-	sched    *fakes3.Scheduler
-	cfg      kv.Config
-	clients  []*pClient
-	vid      map[string]int // real version name -> model id
-	nextVid  int
-	pendVid  map[int]int // client idx -> model id allocated at begin of its commit
-	arrival  []string    // names in root/current/ in order of arrival (as the model keeps them)
-	dataOf   map[string]string // version name -> data key it introduced
-	storedKeys map[string]bool // data keys whose version PUT was served
+	e          *Emitter
+	st         *Stats
+	r          *gen.Rng
+	id         string
+	store      *fakes3.Store
+	sched      *fakes3.Scheduler
+	cfg        kv.Config
+	clients    []*pClient
+	vid        map[string]int // real version name -> model id
+	nextVid    int
+	pendVid    map[int]int       // client idx -> model id allocated at begin of its commit
+	arrival    []string          // names in root/current/ in order of arrival (as the model keeps them)
+	dataOf     map[string]string // version name -> data key it introduced
+	storedKeys map[string]bool   // data keys whose version PUT was served
 	ackedKeys  map[string]bool
-	wg       sync.WaitGroup
-	nextT    int64
-	failed   bool
+	wg         sync.WaitGroup
+	nextT      int64
+	failed     bool
 }
 
 func (c *protoCase) fail(what string) {
